@@ -4,16 +4,14 @@
    exclude, all_locales, FilterCache/cache, _filter, filter), independent
    specification Model/FilterSpec.v, in-file branch of ContentComparer.compare
    with the observers Model/FilterCompare.v.  Path matching is a parameter:
-   [pmatch m locale file] is None when `Matcher.match` returns None, else the
-   size of the dictionary it returns; `_filter` tests that dictionary for truth
-   ([code_matches]), the documented semantics only asks whether the pattern
-   matches ([doc_matches]).  [compile_re] is re.compile on the user's `re:` keys.
+   [matches m locale file] is `m.with_env({"locale": locale}).match(path) is
+   not None` (an empty dictionary -- a pattern without variables or wildcards
+   -- is a match).  [compile_re] is re.compile on the user's `re:` keys.
 
    Theorems only; each is closed by a lemma of Proofs/Filter*.v. *)
 From Coq Require Import NArith List Bool Arith.
 From CL Require Import Base.Str Base.Res Regex.Rx Generated.FilterFacts Model.Filter Model.FilterSpec
-  Model.FilterCompare Proofs.FilterKeyProofs Proofs.FilterProofs Proofs.FilterDictProofs
-  Proofs.FilterCacheProofs Proofs.FilterCompareProofs.
+  Model.FilterCompare Proofs.FilterKeyProofs Proofs.FilterProofs Proofs.FilterCacheProofs Proofs.FilterCompareProofs.
 Import ListNotations.
 
 (* ---- keys ----------------------------------------------------------------- *)
@@ -31,38 +29,31 @@ Section C14.
 Variables (matcher locale file : Type).
 Variable loc_eqb : locale -> locale -> bool.
 Variable compile_re : str -> option rx.
-Variable pmatch : matcher -> locale -> file -> option nat.
-
-Notation code := (code_matches matcher locale file pmatch).
-Notation doc := (doc_matches matcher locale file pmatch).
+Variable matches : matcher -> locale -> file -> bool.
 
 (* For every configuration tree built through the API (rule lists expanded by
    _compile_rule, nested includes, excludes), every locale, file and key: the
    cache-free filter computes the documented verdict -- ignore when the locale
    or the path is not covered or an excluded configuration covers the file,
    else the most severe, over the configuration and its includes, of "action
-   of the last rule that applies, else error" -- outside the two known
-   findings: no pattern of the project matches the file with an empty
-   dictionary, and every excluded configuration covering the file answers
-   `error` for it. *)
+   of the last rule that applies, else error" -- outside the known finding
+   D10: every excluded configuration covering the file answers `error` for it. *)
 Theorem C14_refines_spec : forall raw cfg loc f ent,
   build matcher locale compile_re raw = Ok cfg ->
-  dicts_nonempty matcher locale file pmatch raw loc f = true ->
-  excludes_error_only matcher locale file loc_eqb doc compile_re raw loc f = true ->
-  filter_pure matcher locale file loc_eqb code cfg loc f ent =
-  spec matcher locale file loc_eqb doc compile_re raw loc f ent.
-Proof. exact (refines_spec_doc matcher locale file loc_eqb compile_re pmatch). Qed.
+  excludes_error_only matcher locale file loc_eqb matches compile_re raw loc f = true ->
+  filter_pure matcher locale file loc_eqb matches cfg loc f ent =
+  spec matcher locale file loc_eqb matches compile_re raw loc f ent.
+Proof. exact (refines_spec matcher locale file loc_eqb matches compile_re). Qed.
 
 (* the syntactic form of DESIGN's hypothesis: excluded configurations (and
    what they include) carry no file-level rule with an action other than error *)
 Theorem C14_refines_spec_no_exclude_rules : forall raw cfg loc f ent,
   build matcher locale compile_re raw = Ok cfg ->
-  dicts_nonempty matcher locale file pmatch raw loc f = true ->
   no_exclude_rules matcher locale raw = true ->
-  filter_pure matcher locale file loc_eqb code cfg loc f ent =
-  spec matcher locale file loc_eqb doc compile_re raw loc f ent.
+  filter_pure matcher locale file loc_eqb matches cfg loc f ent =
+  spec matcher locale file loc_eqb matches compile_re raw loc f ent.
 Proof.
-  intros raw cfg loc f ent Hb Hd Hn. apply C14_refines_spec; [exact Hb|exact Hd|].
+  intros raw cfg loc f ent Hb Hn. apply C14_refines_spec; [exact Hb|].
   apply no_exclude_rules_sufficient. exact Hn.
 Qed.
 
@@ -72,25 +63,25 @@ Hypothesis loc_eqb_eq : forall a b, loc_eqb a b = true <-> a = b.
    what would be computed now -- true of every freshly built configuration,
    next theorem), any sequence of filter calls on the one object, in any
    interleaving of locales, returns the cache-free results. *)
-Theorem C14_cache_transparent : forall (matches : matcher -> locale -> file -> bool) qs c,
+Theorem C14_cache_transparent : forall qs c,
   coherent matcher locale loc_eqb c ->
   run_queries matcher locale file loc_eqb matches c qs =
   map (fun q => filter_pure matcher locale file loc_eqb matches c (fst (fst q)) (snd (fst q)) (snd q)) qs.
-Proof. intro matches. exact (cache_transparent matcher locale file loc_eqb matches loc_eqb_eq). Qed.
+Proof. exact (cache_transparent matcher locale file loc_eqb matches loc_eqb_eq). Qed.
 
 Theorem C14_built_coherent : forall raw cfg,
   build matcher locale compile_re raw = Ok cfg -> coherent matcher locale loc_eqb cfg.
 Proof. exact (built_coherent matcher locale loc_eqb compile_re). Qed.
 
 (* each call leaves the configuration complete and its data untouched *)
-Theorem C14_cache_preserved : forall (matches : matcher -> locale -> file -> bool) c loc f ent,
+Theorem C14_cache_preserved : forall c loc f ent,
   coherent matcher locale loc_eqb c ->
   fst (filter_st matcher locale file loc_eqb matches c loc f ent) =
     filter_pure matcher locale file loc_eqb matches c loc f ent /\
   coherent matcher locale loc_eqb (snd (filter_st matcher locale file loc_eqb matches c loc f ent)) /\
   erase matcher locale (snd (filter_st matcher locale file loc_eqb matches c loc f ent)) =
     erase matcher locale c.
-Proof. intro matches. exact (filter_st_transparent matcher locale file loc_eqb matches loc_eqb_eq). Qed.
+Proof. exact (filter_st_transparent matcher locale file loc_eqb matches loc_eqb_eq). Qed.
 
 (* In-file clause (compare semantics): with one observer whose filter is this
    project's, over the keys missing from an existing localized file: exactly
@@ -98,7 +89,7 @@ Proof. intro matches. exact (filter_st_transparent matcher locale file loc_eqb m
    exactly the warning ones are counted, as report; ignored ones are in
    neither and are not shown; nothing is recorded when the file's dummy key
    '' is ignored. *)
-Theorem C14_in_file : forall (matches : matcher -> locale -> file -> bool) shown c loc f keys,
+Theorem C14_in_file : forall shown c loc f keys,
   let g := fun k => filter_pure matcher locale file loc_eqb matches c loc f (Some k) in
   let r := compare_missing shown [Some g] keys in
   let merged := filter (fun k => is_error (g k)) keys in
@@ -109,7 +100,7 @@ Theorem C14_in_file : forall (matches : matcher -> locale -> file -> bool) shown
   map o_details (c_obs r) = [shown_keys shown (fun k => negb (is_ignore (g k))) keys] /\
   map o_summary (c_obs r) =
     [if is_ignore (g []) then (0, 0) else (length merged, length reported)].
-Proof. intros matches shown c loc f keys. apply in_file_single. Qed.
+Proof. intros shown c loc f keys. apply in_file_single. Qed.
 
 End C14.
 
@@ -138,8 +129,7 @@ Definition tpmatch (m : tmatcher) (l f : nat) : option nat :=
   | Some p => Some (snd p)
   | None => None
   end.
-Definition tcode := code_matches tmatcher nat nat tpmatch.
-Definition tdoc := doc_matches tmatcher nat nat tpmatch.
+Definition tmatch := doc_matches tmatcher nat nat tpmatch.     (* `is not None` *)
 Definition no_re (_ : str) : option rx := None.
 
 Definition m_all : tmatcher := [(0, 0, 2); (0, 1, 2)].        (* l10n/{locale}/** *)
@@ -160,12 +150,11 @@ Definition raw_excl : rawconfig tmatcher nat :=
 
 Theorem C14_exclude_refuted : exists raw cfg loc f,
   build tmatcher nat no_re raw = Ok cfg /\
-  dicts_nonempty tmatcher nat nat tpmatch raw loc f = true /\
-  excludes_error_only tmatcher nat nat Nat.eqb tdoc no_re raw loc f = false /\
-  existsb (fun e => excl_covers tmatcher nat nat Nat.eqb tdoc no_re e loc f)
+  excludes_error_only tmatcher nat nat Nat.eqb tmatch no_re raw loc f = false /\
+  existsb (fun e => excl_covers tmatcher nat nat Nat.eqb tmatch no_re e loc f)
           (match raw with mkrawc _ _ _ _ _ _ ex => ex end) = true /\
-  filter_pure tmatcher nat nat Nat.eqb tcode cfg loc f None = AError /\
-  spec tmatcher nat nat Nat.eqb tdoc no_re raw loc f None = AIgnore.
+  filter_pure tmatcher nat nat Nat.eqb tmatch cfg loc f None = AError /\
+  spec tmatcher nat nat Nat.eqb tmatch no_re raw loc f None = AIgnore.
 Proof.
   exists raw_excl.
   destruct (build tmatcher nat no_re raw_excl) as [cfg|] eqn:E; [|vm_compute in E; discriminate].
@@ -173,21 +162,20 @@ Proof.
   vm_compute in E. injection E as <-. vm_compute. repeat split; reflexivity.
 Qed.
 
-(* second finding: a rule whose path has no variable or wildcard never applies
-   (Matcher.match returns {}, which _filter tests for truth) *)
-Theorem C14_literal_path_refuted : exists raw cfg loc f,
-  build tmatcher nat no_re raw = Ok cfg /\
-  dicts_nonempty tmatcher nat nat tpmatch raw loc f = false /\
-  excludes_error_only tmatcher nat nat Nat.eqb tdoc no_re raw loc f = true /\
-  filter_pure tmatcher nat nat Nat.eqb tcode cfg loc f None = AError /\
-  spec tmatcher nat nat Nat.eqb tdoc no_re raw loc f None = AIgnore.
-Proof.
-  exists (raw_plain [mkraw _ (RPone _ m_lit) None AIgnore]).
-  destruct (build tmatcher nat no_re (raw_plain [mkraw _ (RPone _ m_lit) None AIgnore]))
-    as [cfg|] eqn:E; [|vm_compute in E; discriminate].
-  exists cfg, 0, 0. split; [reflexivity|].
-  vm_compute in E. injection E as <-. vm_compute. repeat split; reflexivity.
-Qed.
+(* a rule whose path has no variable or wildcard (Matcher.match returns the
+   EMPTY dictionary) applies like any other: the comparison is with None.
+   (Before the repair 1757672 `_filter` tested the dictionary for truth and
+   this verdict was `error`.) *)
+Example C14_literal_path_applies :
+  match build tmatcher nat no_re (raw_plain [mkraw _ (RPone _ m_lit) None AIgnore]) with
+  | Ok cfg =>
+      tpmatch m_lit 0 0 = Some 0 /\
+      filter_pure tmatcher nat nat Nat.eqb tmatch cfg 0 0 None = AIgnore /\
+      spec tmatcher nat nat Nat.eqb tmatch no_re
+           (raw_plain [mkraw _ (RPone _ m_lit) None AIgnore]) 0 0 None = AIgnore
+  | Raise _ => False
+  end.
+Proof. vm_compute. repeat split; reflexivity. Qed.
 
 (* add_rules after a filter call for the same locale is not seen: the
    FilterCache slot is only rebuilt when the locale changes.  (Documented:
@@ -195,13 +183,13 @@ Qed.
    hypothesis of C14_cache_transparent that this breaks.) *)
 Theorem C14_cache_stale_refuted : exists cfg loc f rule c2,
   coherent tmatcher nat Nat.eqb cfg /\
-  add_rules tmatcher nat no_re (snd (filter_st tmatcher nat nat Nat.eqb tcode cfg loc f None)) [rule]
+  add_rules tmatcher nat no_re (snd (filter_st tmatcher nat nat Nat.eqb tmatch cfg loc f None)) [rule]
     = Ok c2 /\
-  fst (filter_st tmatcher nat nat Nat.eqb tcode c2 loc f None) = AError /\
-  filter_pure tmatcher nat nat Nat.eqb tcode c2 loc f None = AIgnore /\
+  fst (filter_st tmatcher nat nat Nat.eqb tmatch c2 loc f None) = AError /\
+  filter_pure tmatcher nat nat Nat.eqb tmatch c2 loc f None = AIgnore /\
   (* asking about another locale and coming back refreshes the slot *)
-  fst (filter_st tmatcher nat nat Nat.eqb tcode
-         (snd (filter_st tmatcher nat nat Nat.eqb tcode c2 1 f None)) loc f None) = AIgnore.
+  fst (filter_st tmatcher nat nat Nat.eqb tmatch
+         (snd (filter_st tmatcher nat nat Nat.eqb tmatch c2 1 f None)) loc f None) = AIgnore.
 Proof.
   destruct (build tmatcher nat no_re (raw_plain [])) as [cfg|] eqn:E; [|vm_compute in E; discriminate].
   exists cfg, 0, 0, (mkraw _ (RPone _ m_all) None AIgnore).
@@ -222,19 +210,18 @@ Definition raw_nested : rawconfig tmatcher nat :=
 
 Example C14_refines_spec_premises : exists cfg,
   build tmatcher nat no_re raw_nested = Ok cfg /\
-  dicts_nonempty tmatcher nat nat tpmatch raw_nested 0 0 = true /\
-  excludes_error_only tmatcher nat nat Nat.eqb tdoc no_re raw_nested 0 0 = true /\
+  excludes_error_only tmatcher nat nat Nat.eqb tmatch no_re raw_nested 0 0 = true /\
   no_exclude_rules tmatcher nat raw_nested = true /\
   (* entity k1 of file 0: the child's warning beats the parent's ignore *)
-  filter_pure tmatcher nat nat Nat.eqb tcode cfg 0 0 (Some k1) = AWarning /\
+  filter_pure tmatcher nat nat Nat.eqb tmatch cfg 0 0 (Some k1) = AWarning /\
   (* the same key followed by a newline is still the literal key *)
-  filter_pure tmatcher nat nat Nat.eqb tcode cfg 0 0 (Some (k1 ++ [10%N])) = AWarning /\
+  filter_pure tmatcher nat nat Nat.eqb tmatch cfg 0 0 (Some (k1 ++ [10%N])) = AWarning /\
   (* another key: the child's default error wins *)
-  filter_pure tmatcher nat nat Nat.eqb tcode cfg 0 0 (Some [122]%N) = AError /\
+  filter_pure tmatcher nat nat Nat.eqb tmatch cfg 0 0 (Some [122]%N) = AError /\
   (* file 1 is covered by the excluded configuration *)
-  filter_pure tmatcher nat nat Nat.eqb tcode cfg 0 1 None = AIgnore /\
+  filter_pure tmatcher nat nat Nat.eqb tmatch cfg 0 1 None = AIgnore /\
   (* locale 1 has no file here *)
-  filter_pure tmatcher nat nat Nat.eqb tcode cfg 1 0 None = AIgnore.
+  filter_pure tmatcher nat nat Nat.eqb tmatch cfg 1 0 None = AIgnore.
 Proof.
   destruct (build tmatcher nat no_re raw_nested) as [cfg|] eqn:E; [|vm_compute in E; discriminate].
   exists cfg. split; [reflexivity|]. vm_compute in E. injection E as <-.
@@ -244,7 +231,7 @@ Qed.
 Example C14_cache_example :
   match build tmatcher nat no_re raw_nested with
   | Ok cfg =>
-      run_queries tmatcher nat nat Nat.eqb tcode cfg
+      run_queries tmatcher nat nat Nat.eqb tmatch cfg
                   [(0, 0, Some k1); (1, 0, None); (0, 0, Some k1); (0, 1, None); (0, 0, None)]
       = [AWarning; AIgnore; AWarning; AIgnore; AError]
   | Raise _ => False
